@@ -29,25 +29,30 @@ Qed.
 Lemma ident_nospace q s : tok_nospace (ident_token q s) = true.
 Proof. unfold ident_token. destruct (requires_quotes q s) as [[|]|]; reflexivity. Qed.
 
-Lemma schema_tokens_nospace q sc : forallb tok_nospace (schema_tokens q sc) = true.
+Lemma ident_f_nospace q f s : tok_nospace (ident_token_f q f s) = true.
+Proof. destruct f; cbn [ident_token_f]; try apply ident_nospace. reflexivity. Qed.
+
+Lemma schema_tokens_nospace q f sc : forallb tok_nospace (schema_tokens q f sc) = true.
 Proof.
   unfold schema_tokens. destruct (schema_given sc) as [s|]; [|reflexivity].
+  destruct f; try (cbn [forallb]; now rewrite ident_f_nospace).
   induction (split_dot s) as [|p r IH]; [reflexivity|]. simpl. now rewrite ident_nospace, IH.
 Qed.
 
 (* ------------------------------------------------------------------ env_ok projections *)
 
 Lemma env_ok_parts q e : env_ok q e = true ->
-  schema_ok q (e_schema e) = true /\ (forall n, name_ok q (slot e n) = true) /\ forallb (opaque_ok q) (e_opq e) = true.
+  schema_ok q (sflag e) (e_schema e) = true /\ (forall n, name_ok_f q (flag e n) (slot e n) = true)
+  /\ forallb (opaque_ok q) (e_opq e) = true.
 Proof.
   unfold env_ok. rewrite !andb_true_iff. intros [[[[[A B] C] D] E] F]. repeat split; auto. intros []; assumption.
 Qed.
 
-Lemma schema_if_ok q e b : schema_ok q (e_schema e) = true -> schema_ok q (schema_if e b) = true.
+Lemma schema_if_ok q e b : schema_ok q (sflag e) (e_schema e) = true -> schema_ok q (sflag e) (schema_if e b) = true.
 Proof. destruct b; simpl; auto. Qed.
 
 Lemma schema_if_tokens q e n sch : (sch || negb (is_ref n)) = true ->
-  schema_tokens q (schema_if e sch) = (if sch || is_ref n then schema_tokens q (e_schema e) else []).
+  schema_tokens q (sflag e) (schema_if e sch) = (if sch || is_ref n then schema_tokens q (sflag e) (e_schema e) else []).
 Proof. destruct sch; simpl; [reflexivity|]. intro H. apply negb_true_iff in H. now rewrite H. Qed.
 
 Lemma schema_if_forced e n sch : (sch || negb (is_ref n)) = true -> schema_if e (sch || is_ref n) = schema_if e sch.
@@ -68,15 +73,16 @@ Proof.
     + split; [reflexivity | now apply notab_sql_literal].
     + cbn [orb] in F2. apply negb_true_iff in F2. rewrite (sql_literal_id t0 F2). auto.
   - apply andb_true_iff in F as [F1 F2]. subst esc.
-    destruct (format_table_name q (slot e n) (schema_if e sch)) as [x|] eqn:FT; [|discriminate]. injection R as <-.
+    destruct (format_table_name q (flag e n) (slot e n) (sflag e) (schema_if e sch)) as [x|] eqn:FT; [|discriminate]. injection R as <-.
     rewrite (schema_if_forced e n sch F2), FT. split; [reflexivity|].
-    apply notab_sql_literal. apply (notab_format_table q (slot e n) (schema_if e sch) x W (NO n) (schema_if_ok q e sch SO) FT).
-  - subst esc. unfold format_column_name in *. destruct (quote q (slot e n)) as [x|] eqn:Q; [|discriminate]. injection R as <-.
-    split; [reflexivity|]. apply notab_sql_literal. apply (notab_quote q (slot e n) x W (name_ok_notab q _ (NO n)) Q).
-  - subst esc. injection R as <-. split; [reflexivity|]. apply notab_sql_literal. apply (name_ok_notab q _ (NO n)).
+    apply notab_sql_literal. apply (notab_format_table q _ (slot e n) _ (schema_if e sch) x W (NO n) (schema_if_ok q e sch SO) FT).
+  - subst esc. unfold format_column_name in *. destruct (quote_f q (flag e n) (slot e n)) as [x|] eqn:Q; [|discriminate]. injection R as <-.
+    split; [reflexivity|]. apply notab_sql_literal. apply (notab_quote_f q _ (slot e n) x W (name_ok_f_notab q _ _ (NO n)) Q).
+  - subst esc. injection R as <-. split; [reflexivity|]. apply notab_sql_literal. apply (name_ok_f_notab q _ _ (NO n)).
   - subst esc. injection R as <-. split; [reflexivity|]. apply notab_sql_literal.
     unfold schema_dot, schema_ok in *. destruct (schema_given (e_schema e)) as [s|]; [|reflexivity].
     rewrite notab_app. assert (notab s = true) as ->; [|reflexivity].
+    revert SO. generalize (sflag e). intros f SO. destruct f; try (now apply (name_ok_f_notab q _ s SO)).
     assert (H : forallb notab (split_dot s) = true).
     { clear -SO. induction (split_dot s) as [|p r IH]; [reflexivity|]. simpl in *. apply andb_true_iff in SO as [A B].
       now rewrite (name_ok_notab q p A), IH. }
@@ -100,24 +106,38 @@ Qed.
 
 Definition is_kw (p:piece) : bool := match p with Kw _ => true | _ => false end.
 
+Lemma nodot_spec e : nodot_schema e = true ->
+  sflag e = Plain -> forall s, schema_given (e_schema e) = Some s -> memN 46 s = false.
+Proof. unfold nodot_schema. intros H E s G. rewrite E, G in H. now apply negb_true_iff in H. Qed.
+
 Lemma piece_closed q e p t : qspec_wf q = true -> env_ok q e = true -> piece_wf q p = true -> is_kw p = false ->
+  (is_tblsa p = true -> nodot_schema e = true) ->
   render_piece q e p = ROk t ->
   closed_lex q t (piece_tokens q e p) /\ notab t = true /\ forallb tok_nospace (piece_tokens q e p) = true.
 Proof.
-  intros W E F K R. pose proof E as E0. apply env_ok_parts in E as (SO & NO & OO).
-  destruct p as [t0|n sch|n|ps|n|i|x]; try discriminate K; cbn [piece_wf render_piece piece_tokens] in *.
+  intros W E F K SA R. pose proof E as E0. apply env_ok_parts in E as (SO & NO & OO).
+  assert (TB : forall n sch x, (sch || negb (is_ref n)) = true ->
+               format_table_name q (flag e n) (slot e n) (sflag e) (schema_if e sch) = Some x ->
+               closed_lex q x (table_tokens q e n sch) /\ notab x = true /\ forallb tok_nospace (table_tokens q e n sch) = true).
+  { intros n sch x Fw FT. unfold table_tokens. rewrite <- (schema_if_tokens q e n sch Fw). repeat split.
+    + now apply (format_table_closed q _ (slot e n) _ (schema_if e sch) x W (NO n) (schema_if_ok q e sch SO) FT).
+    + now apply (format_table_closed q _ (slot e n) _ (schema_if e sch) x W (NO n) (schema_if_ok q e sch SO) FT).
+    + apply (notab_format_table q _ (slot e n) _ (schema_if e sch) x W (NO n) (schema_if_ok q e sch SO) FT).
+    + rewrite forallb_app, schema_tokens_nospace. cbn [forallb]. now rewrite ident_f_nospace. }
+  destruct p as [t0|n sch|n|n|ps|n|i|x]; try discriminate K; cbn [piece_wf render_piece piece_tokens] in *.
   - (* Tbl *)
-    destruct (format_table_name q (slot e n) (schema_if e sch)) as [x|] eqn:FT; [|discriminate]. injection R as <-.
-    unfold table_tokens. rewrite <- (schema_if_tokens q e n sch F). repeat split.
-    + now apply (format_table_closed q (slot e n) (schema_if e sch) x W (NO n) (schema_if_ok q e sch SO) FT).
-    + now apply (format_table_closed q (slot e n) (schema_if e sch) x W (NO n) (schema_if_ok q e sch SO) FT).
-    + apply (notab_format_table q (slot e n) (schema_if e sch) x W (NO n) (schema_if_ok q e sch SO) FT).
-    + rewrite forallb_app, schema_tokens_nospace. cbn [forallb]. now rewrite ident_nospace.
+    destruct (format_table_name q (flag e n) (slot e n) (sflag e) (schema_if e sch)) as [x|] eqn:FT; [|discriminate].
+    injection R as <-. now apply TB.
+  - (* TblSA *)
+    rewrite (format_table_sa_nodot q _ (slot e n) _ (e_schema e) (nodot_spec e (SA eq_refl))) in R.
+    change (e_schema e) with (schema_if e true) in R.
+    destruct (format_table_name q (flag e n) (slot e n) (sflag e) (schema_if e true)) as [x|] eqn:FT; [|discriminate].
+    injection R as <-. now apply TB.
   - (* Col *)
-    unfold format_column_name in R. destruct (quote q (slot e n)) as [x|] eqn:Q; [|discriminate]. injection R as <-.
-    repeat split; try apply (quote_closed q (slot e n) x W (NO n) Q).
-    + apply (notab_quote q (slot e n) x W (name_ok_notab q _ (NO n)) Q).
-    + cbn [forallb]. now rewrite ident_nospace.
+    unfold format_column_name in R. destruct (quote_f q (flag e n) (slot e n)) as [x|] eqn:Q; [|discriminate]. injection R as <-.
+    repeat split; try apply (quote_f_closed q _ (slot e n) x W (NO n) Q).
+    + apply (notab_quote_f q _ (slot e n) x W (name_ok_f_notab q _ _ (NO n)) Q).
+    + cbn [forallb]. now rewrite ident_f_nospace.
   - (* StrLit *)
     apply andb_true_iff in F as [F F3]. apply andb_true_iff in F as [F1 F2]. apply negb_true_iff in F1.
     destruct (map_opt (render_inner q e) ps) as [l|] eqn:M; [|discriminate]. injection R as <-.
@@ -166,26 +186,32 @@ Qed.
 
 Theorem pieces_sound q e : qspec_wf q = true -> env_ok q e = true -> forall v a st sql,
   pending st = true -> abs_ok a st -> wf_go q a v = true -> forallb (piece_wf q) v = true ->
+  sa_ok v e = true ->
   render q e v = ROk sql ->
   lex_from q st sql = finish st ++ expected_tokens q e v
   /\ pending (snd (run_st q st sql)) = true
   /\ notab sql = true
   /\ forallb tok_nospace (expected_tokens q e v) = true.
 Proof.
-  intros W E. induction v as [|p r IH]; intros a st sql P A G F R.
+  intros W E. induction v as [|p r IH]; intros a st sql P A G F SA R.
   - cbn [render] in R. injection R as <-. rewrite lex_from_unfold. cbn. rewrite app_nil_r. auto.
   - apply render_cons in R as (t & sql' & R1 & R2 & ->).
     cbn [forallb] in F. apply andb_true_iff in F as [F1 F2].
+    assert (SA1 : is_tblsa p = true -> nodot_schema e = true).
+    { intro T. unfold sa_ok in SA. cbn [existsb] in SA. rewrite T in SA. exact SA. }
+    assert (SA2 : sa_ok r e = true).
+    { unfold sa_ok in *. cbn [existsb] in SA. destruct (nodot_schema e); [now rewrite orb_true_r|].
+      rewrite orb_false_r in *. apply negb_true_iff in SA. apply orb_false_iff in SA as [_ SA]. now rewrite SA. }
     unfold expected_tokens. cbn [flat_map]. fold (expected_tokens q e r).
     destruct (is_kw p) eqn:K.
     + (* alembic's own text *)
-      destruct p as [t0| | | | | |]; try discriminate K. cbn [render_piece] in R1. injection R1 as <-.
+      destruct p as [t0| | | | | | |]; try discriminate K. cbn [render_piece] in R1. injection R1 as <-.
       cbn [piece_wf] in F1. apply andb_true_iff in F1 as [N1 N2]. cbn [piece_tokens].
       destruct t0 as [|c t1].
-      * cbn [wf_go] in G. cbn [app]. destruct (IH a st sql' P A G F2 R2) as (I1 & I2 & I3 & I4).
+      * cbn [wf_go] in G. cbn [app]. destruct (IH a st sql' P A G F2 SA2 R2) as (I1 & I2 & I3 & I4).
         change (lex q []) with (@nil token). cbn [app]. auto.
       * cbn [wf_go] in G. apply andb_true_iff in G as [G G3]. apply andb_true_iff in G as [G1 G2].
-        destruct (IH (Some (end_st q (c :: t1))) (end_st q (c :: t1)) sql' G2 eq_refl G3 F2 R2) as (I1 & I2 & I3 & I4).
+        destruct (IH (Some (end_st q (c :: t1))) (end_st q (c :: t1)) sql' G2 eq_refl G3 F2 SA2 R2) as (I1 & I2 & I3 & I4).
         assert (C : st = LNormal \/ starts_sep q (c :: t1) = true).
         { apply orb_true_iff in G1 as [G1|G1]; [left; now apply (is_normal_abs a) | right; exact G1]. }
         destruct (compose q st (c :: t1) sql' _ P C G2 I1) as [C1 C2].
@@ -195,8 +221,8 @@ Proof.
       { destruct p; try discriminate K; cbn [wf_go] in G; try (now apply andb_true_iff in G).
         cbn [render_piece] in R1. discriminate R1. }
       destruct G' as [G1 G2]. pose proof (is_normal_abs a st G1 A) as ->.
-      destruct (piece_closed q e p t W E F1 K R1) as ([PC LC] & NT & TN).
-      destruct (IH None (end_st q t) sql' PC I G2 F2 R2) as (I1 & I2 & I3 & I4).
+      destruct (piece_closed q e p t W E F1 K SA1 R1) as ([PC LC] & NT & TN).
+      destruct (IH None (end_st q t) sql' PC I G2 F2 SA2 R2) as (I1 & I2 & I3 & I4).
       destruct (compose q LNormal t sql' _ eq_refl (or_introl eq_refl) PC I1) as [C1 C2].
       rewrite C1, C2, LC, notab_app, NT, I3, forallb_app, TN, I4. auto.
 Qed.
@@ -211,12 +237,12 @@ Qed.
 (* ------------------------------------------------------------------ the statement as compiled and as written offline *)
 
 Theorem visitor_sound q e v sql :
-  visitor_wf q v = true -> env_ok q e = true -> render q e v = ROk sql ->
+  visitor_wf q v = true -> env_ok q e = true -> sa_ok v e = true -> render q e v = ROk sql ->
   lex q sql = expected_tokens q e v /\ pending (end_st q sql) = true /\ notab sql = true
   /\ forallb tok_nospace (expected_tokens q e v) = true /\ raises v = false.
 Proof.
-  unfold visitor_wf. rewrite !andb_true_iff. intros [[W G] F] E R.
-  destruct (pieces_sound q e W E v (Some LNormal) LNormal sql eq_refl eq_refl G F R) as (A & B & C & D).
+  unfold visitor_wf. rewrite !andb_true_iff. intros [[W G] F] E SA R.
+  destruct (pieces_sound q e W E v (Some LNormal) LNormal sql eq_refl eq_refl G F SA R) as (A & B & C & D).
   repeat split; auto. eapply render_ok_no_fail; eauto.
 Qed.
 
@@ -224,10 +250,11 @@ Lemma tail_facts d : starts_sep (qspec_of d) (offline_tail d) = true /\ pending 
 Proof. destruct d; split; reflexivity. Qed.
 
 Theorem offline_sound d e v sql :
-  visitor_wf (qspec_of d) v = true -> env_ok (qspec_of d) e = true -> render (qspec_of d) e v = ROk sql ->
+  visitor_wf (qspec_of d) v = true -> env_ok (qspec_of d) e = true -> sa_ok v e = true ->
+  render (qspec_of d) e v = ROk sql ->
   lex (qspec_of d) (offline d sql) = expected_tokens (qspec_of d) e v ++ lex (qspec_of d) (offline_tail d).
 Proof.
-  intros V E R. destruct (visitor_sound _ e v sql V E R) as (L & P & NT & TN & _).
+  intros V E SA R. destruct (visitor_sound _ e v sql V E SA R) as (L & P & NT & TN & _).
   assert (W : qspec_wf (qspec_of d) = true).
   { unfold visitor_wf in V. rewrite !andb_true_iff in V. now destruct V as [[W _] _]. }
   unfold offline. rewrite (replace_tab_id sql NT).
